@@ -51,7 +51,7 @@ def run_fixed(ctx):
     return n, out
 
 
-def run_net(ctx, keys_for_pid, scripts_cap=None, parts=("honest_exh", "honest_sim", "byz_exh", "byz_sim")):
+def run_net(ctx, keys_for_pid, scripts_cap=None, parts=("honest_exh", "honest_sim", "byz_exh", "byz_sim", "chg_sim")):
     quick = ctx.tier == "quick"
     binp = ctx.go_build("./cmd/net")
     runs = []
@@ -72,7 +72,13 @@ def run_net(ctx, keys_for_pid, scripts_cap=None, parts=("honest_exh", "honest_si
         runs.append(("net_byz_exh", dict(byz, MaxSteps=9, MaxBlocks=7, Now=8, MaxByz=3, DumpEvery=400), dict(workers=14, timeout=3000), dict(hbyz, now=8)))
     runs.append(("net_byz_sim", dict(byz, MaxSteps=34, MaxBlocks=20, MaxHeight=11, Now=30, MaxByz=5, DumpEvery=1, SkipDiscard="TRUE", SlotSpan=4),
                  dict(workers=1, timeout=900, simulate=150 if quick else 1500, depth=36, seed=ctx.seed + 11), dict(hbyz, now=30)))
-    part_of = dict(net_exh="honest_exh", net_sim="honest_sim", net_byz_exh="byz_exh", net_byz_sim="byz_sim")
+    # validator-set changes inside the network (validator 3 leaves / re-weighting with a re-ordered generator list): the
+    # generator of a slot, the round length used by fast sync and the BFT thresholds change along the chain
+    choices = [dict(pcT=2, certT=2, w=[1, 1, 0], gens=[2, 1]), dict(pcT=3, certT=3, w=[2, 1, 1], gens=[3, 1, 2])]
+    chg = dict(ParamChoices="Choices3", MaxChg=1)
+    runs.append(("net_chg_sim", dict(chg, MaxChg=2, MaxSteps=30, MaxBlocks=16, MaxHeight=10, Now=24, DumpEvery=1, SkipDiscard="TRUE", SlotSpan=3),
+                 dict(workers=1, timeout=900, simulate=150 if quick else 1500, depth=32, seed=ctx.seed + 23), dict(nval=3, pcT=2, now=24, choices=choices)))
+    part_of = dict(net_chg_sim="chg_sim", net_exh="honest_exh", net_sim="honest_sim", net_byz_exh="byz_exh", net_byz_sim="byz_sim")
     runs = [r for r in runs if part_of[r[0]] in parts]
     total = dict(scripts=0, steps=0, forges=0, delivers=0, restarts=0, byzantine_forges=0, byzantine_delivers=0, scripts_with_finality=0, finalized_prefix_pairs_compared=0)
     branches = {}; syncs = {}
